@@ -15,6 +15,7 @@ import (
 	"os"
 	"reflect"
 	"strings"
+	"sync/atomic"
 	"testing"
 	"testing/synctest"
 	"time"
@@ -61,6 +62,21 @@ type csMachine struct {
 }
 
 type csAbort struct{}
+
+// csSelfCancelCtx cancels itself right after the first Err() call that answered nil.
+type csSelfCancelCtx struct {
+	context.Context
+	armed  atomic.Bool
+	cancel context.CancelFunc
+}
+
+func (c *csSelfCancelCtx) Err() error {
+	e := c.Context.Err()
+	if e == nil && c.armed.CompareAndSwap(true, false) {
+		defer c.cancel()
+	}
+	return e
+}
 
 // csSource is the source channel behind a Channel, of a drawn element type: the model works with tokens 1,2,3…, the
 // source carries them as int, as int boxed in interface{}, as *int-free strings, or — for chan struct{} — as
@@ -372,10 +388,17 @@ func (m *csMachine) ruleGet(t *rapid.T) {
 	if m.getOp != nil {
 		t.Skip("get pending")
 	}
-	kind := rapid.SampledFrom([]string{"nil", "bg", "cancellable", "cancellable", "cancelled"}).Draw(t, "getCtx")
+	kind := rapid.SampledFrom([]string{"nil", "bg", "cancellable", "cancellable", "cancelled", "selfcancel"}).Draw(t, "getCtx")
 	var ctx context.Context
 	var cancel context.CancelFunc
 	switch kind {
+	case "selfcancel":
+		// cancelled the moment after it was first asked and answered "live": a Get that found its value at once
+		// returns it, one that has to wait notices the cancellation at its next look
+		inner, cn := context.WithCancel(context.Background())
+		w := &csSelfCancelCtx{Context: inner, cancel: cn}
+		w.armed.Store(true)
+		ctx, cancel = w, cn
 	case "bg":
 		ctx = context.Background()
 	case "cancellable":
@@ -404,7 +427,7 @@ func (m *csMachine) ruleGet(t *rapid.T) {
 		}
 		m.checkGetResult(op, val, wantErr)
 	} else {
-		m.getOp, m.getCancel, m.getCtxErr = op, cancel, false
+		m.getOp, m.getCancel, m.getCtxErr = op, cancel, kind == "selfcancel"
 		m.tr("get(%s)...", kind)
 		if m.srcClosed {
 			m.srcClosedGet = true
